@@ -11,7 +11,7 @@ name = sys.argv[1]
 args = sys.argv[2:]
 seed = os.path.join(VERIF, "seeded", name)
 patch = os.path.join(seed, "patch.diff")
-lock = open("/tmp/verif-repo.lock", "w")
+lock = open("/tmp/verif-repo.lock", "a")
 fcntl.flock(lock, fcntl.LOCK_EX)  # one patched /repo at a time
 try:
     st = subprocess.run("git -C /repo status --porcelain", shell=True, capture_output=True, text=True).stdout.strip()
@@ -24,7 +24,7 @@ try:
         cmd = ["python3", os.path.join(VERIF, "run_check.py"), "--dev"] + args[1:]
         label = "dev-" + "+".join(args[1:])[:60]
     logp = os.path.join("/tmp", "seeded-%s-%s.log" % (name, label))
-    env = dict(os.environ, VERIF_EVIDENCE_DIR="/tmp/seeded-evidence")
+    env = dict(os.environ, VERIF_EVIDENCE_DIR="/tmp/seeded-evidence", VERIF_REPO_LOCKED="1")
     with open(logp, "w") as lf:
         p = subprocess.Popen(cmd, stdout=lf, stderr=subprocess.STDOUT, cwd=VERIF, env=env)
         t0 = time.time()
